@@ -50,6 +50,8 @@ def letters(tier):
                 {'arithmetic': 'guarded', 'precision': 4, 'guard': 0}, {'arithmetic': 'guarded', 'precision': 3, 'guard': 2, 'display': 5},
                 {'arithmetic': 'guarded', 'precision': 5, 'guard': 3, 'display': 2}, {'arithmetic': 'rational', 'display': 5, 'omega': 3},
                 {'arithmetic': 'guarded', 'precision': 2, 'guard': 3, 'display': 5}]      # same total digits and display as 3+2, other split
+    if tier == 'quick':
+        variants = [v for v in variants if not (v.get('precision') in (6, 5))]      # two of the splits only in the thorough tier
     if tier == 'thorough':
         variants += [{'arithmetic': 'fixed', 'precision': 9, 'display': 0}, {'arithmetic': 'guarded', 'precision': 9, 'guard': 9, 'display': 12},
                      {'arithmetic': 'rational', 'display': 0, 'omega': 2}, {'arithmetic': 'guarded', 'precision': 2, 'guard': 0, 'display': 1}]
@@ -316,6 +318,7 @@ class C20:
         nrep = len(keys) if tier == 'thorough' else min(len(keys), 48)
         chosen = keys[:nrep // 2] + keys[len(keys) - (nrep - nrep // 2):] if nrep < len(keys) else keys
         validated = 0
+        hidden = []
         jobs = []
         for k in chosen:
             hist, outs = self.path(states, k)
@@ -328,24 +331,41 @@ class C20:
                 return 2
             if r['outs'] != outs:
                 # In a fresh process the same history produces another output than the (state-restoring) search recorded: the output
-                # depends on something outside the scanned state -- a cache in a closure, a C-level object -- i.e. on earlier elections.
-                j = next(i for i, (a, b) in enumerate(zip(r['outs'], outs)) if a != b)
-                li = hist[j]
-                sig = 'C20|%s|%s|history-dependence|hidden-state' % (L[li][1]['rule'], L[li][1].get('arithmetic', 'default'))
-                if sig not in viol or len(hist[:j]) < len(viol[sig][1]):
-                    viol[sig] = ('output of %s after the history %s differs between a fresh process and the state-restoring search: state outside the '
-                                 'scanned module/class data leaks between elections' % (L[li], [L[h] for h in hist[:j]]), hist[:j], li)
+                # depends on something outside the scanned state (a cache in a closure, a C-level object).  The saturation history
+                # below turns this into a violation that reproduces in fresh processes; unexplained mismatches are a harness error.
+                hidden.append(hist)
                 continue
             if r['state'] != k:
                 print('HARNESS ERROR: the in-process search and a fresh process disagree on the state reached by history %s (%s vs %s)' % (hist, r['state'], k))
                 return 2
             validated += 1
+        # ---- fresh references and the saturation history (every letter once, then every letter again) in fresh processes
+        n = len(L)
+        with ctx.Pool(driver.NWORKERS) as pool3:
+            fresh = pool3.starmap(_subcall, [(tier, [i]) for i in range(n)] + [(tier, list(range(n)) + list(range(n)))])
+        if any(f.get('error') for f in fresh):
+            print('HARNESS ERROR: subprocess failed: %s' % [f.get('error') for f in fresh if f.get('error')][:1])
+            return 2
+        ref_fresh = [f['outs'][0] for f in fresh[:n]]
+        sat = fresh[n]['outs']
+        order2 = list(range(n)) + list(range(n))
+        for pos, li in enumerate(order2):
+            ntrans += 1
+            if sat[pos] != ref_fresh[li]:
+                sig = 'C20|%s|%s|history-dependence|saturation' % (L[li][1]['rule'], L[li][1].get('arithmetic', 'default'))
+                if sig not in viol:
+                    viol[sig] = ('%s gives another record after the %d elections of the alphabet run before it in one process than in a fresh process'
+                                 % (L[li], pos), order2[:pos], li)
+        if hidden and not any(s_.endswith('saturation') for s_ in viol):
+            print('HARNESS ERROR: the in-process search and fresh processes disagree on histories %s and the saturation history does not explain it' % hidden[:2])
+            return 2
         # ---- confirm + report violations
         kf = driver.known_findings()
         known = {f['signature']: f for f in kf.get('findings', []) if f.get('property') == PID}
         code = 0
         lines = []
         nviol = 0
+        unconfirmed = []
         for sig in sorted(viol):
             msg, hist, li = viol[sig]
             if li is None:      # file-history check: confirmed inline, no letter history
@@ -358,8 +378,10 @@ class C20:
                 continue
             case = {'tier': tier, 'history': [list(L[h]) for h in hist], 'letter': list(L[li])}
             if not self.confirm(case):
-                print('HARNESS ERROR: violation %s did not reproduce in fresh subprocesses' % sig)
-                return 2
+                # the state-restoring search saw it, a fresh process with the same letter history does not: the difference came from state
+                # outside the scanned data left behind by other elections in the worker; only violations that reproduce are reported
+                unconfirmed.append(sig)
+                continue
             if sig in known:
                 lines.append('KNOWN-FINDING: property=%s %s' % (PID, known[sig].get('what', sig)))
                 continue
@@ -367,6 +389,12 @@ class C20:
             print('violation: %s :: %s' % (sig, msg))
             lines.append('VIOLATION property=%s replay=%s' % (PID, driver.write_replay(PID, sig, msg, case)))
             code = 1
+        if unconfirmed and code == 0:
+            print('HARNESS ERROR: %d difference(s) seen by the state-restoring search did not reproduce in fresh processes and no reproducible '
+                  'violation explains them: %s' % (len(unconfirmed), unconfirmed[:3]))
+            return 2
+        for u in unconfirmed:
+            print('note: %s seen in-process only (hidden state); see the reproducible violation(s) above' % u)
         wall = time.time() - t0
         samples = []
         for k in keys[:2] + keys[-2:]:
